@@ -250,6 +250,36 @@ def check_sequence(res, desc, tag):
                 break
         res.count(f"sequence-run:{solver}")
         ol.cleanup_scratch()
+    # the batched kernel: all temperatures as the systems of ONE batch against one-system batches
+    case = {"kind": "c06-sequence", "desc": desc, "backend": "cvode/cusparse (compiled for the host)", "temperatures": order}
+    net = ol.build_network(desc)
+    d = ol.render(net, "cvode", "cusparse", "gpu")
+    srcs = []
+    for f in ("naunet_fex", "naunet_rates", "naunet_constants", "naunet_physics", "naunet_utilities"):
+        src_f = d / "src" / f"{f}.cu"
+        if not src_f.exists():
+            src_f = d / "src" / f"{f}.cpp"
+        text = src_f.read_text()
+        text = re.sub(r"(\b\w+)\s*<<<[^;]*?>>>\s*\(", r"\1(", text)       # kernel launches as plain calls; nothing else is touched
+        (d / "src" / f"{f}_host.cpp").write_text(text)
+        srcs.append(str(d / "src" / f"{f}_host.cpp"))
+    exe = d / "seq"
+    r = subprocess.run(["g++", "-std=c++17", "-O0", "-w", "-x", "c++", "-DUSE_CUDA", "-D__global__=", "-D__device__=", "-D__host__=", "-D__constant__=",
+                        "-include", str(CXX / "cuda" / "cuda_shim.h"), "-Wl,--unresolved-symbols=ignore-all", "-I", str(CXX / "cuda"), "-I", str(CXX / "sundials"),
+                        "-I", str(d / "include"), "-o", str(exe), *srcs, str(CXX / "seq_cusparse.cpp")], stdout=subprocess.PIPE, stderr=subprocess.STDOUT, text=True)
+    if r.returncode != 0:
+        res.violation("correspondence", f"cvode/cusparse: rendered sources do not compile for the host against the CUDA stand-in: {r.stdout[-500:]}", case)
+    else:
+        run = lambda ts: subprocess.run([str(exe)] + [repr(t) for t in ts], stdout=subprocess.PIPE, text=True).stdout.splitlines()
+        together = run(order)
+        for k, T in enumerate(order):
+            alone = run([T])
+            if k >= len(together) or not alone or together[k].split() != alone[0].split():
+                res.violation("oracle", f"cvode/cusparse: system {k} of a batch (T={T}) gets another derivative than a batch holding this system alone: "
+                                        f"{(together[k] if k < len(together) else '')[:120]} vs {alone[0][:120] if alone else ''} (the other systems have T={order[:k]})", case)
+                break
+        res.count("sequence-run:cusparse")
+    ol.cleanup_scratch()
     res.case(("c06-sequence", tag, repr(desc)), sample={"temperatures": order[:6]}, nontrivial=True)
 
 
